@@ -9,7 +9,7 @@ A path is a list of events::
     ("assign", target_src, value_node, stmt)
     ("aug", target_src, op, value_node, stmt)
     ("expr", value_node, stmt)
-    ("cond", test_node, True|False, stmt)
+    ("cond", test_node, True|False, stmt)   -- test in positive normal form
     ("sanitize", var, char_node, repl_node, extra_guard_node|None, stmt)
     ("try", stmt) / ("except", type_src, handler) / ("finally", stmt)
     ("loop", n_iterations, stmt)
@@ -27,6 +27,30 @@ from __future__ import annotations
 import ast
 
 from .core import AnalysisError, src
+
+
+def _cond(test, value, st):
+    """condition event in positive normal form: ``not c`` taken as True is
+    ``c`` taken as False (also ``is not`` / ``!=`` / ``not in``), so a rule
+    reads the same on a statement and on its branch-inverted twin"""
+    flip = False
+    t = test
+    while True:
+        if isinstance(t, ast.UnaryOp) and isinstance(t.op, ast.Not):
+            t = t.operand
+            flip = not flip
+            continue
+        if isinstance(t, ast.Compare) and len(t.ops) == 1 and \
+                type(t.ops[0]) in (ast.IsNot, ast.NotEq, ast.NotIn):
+            pos = {ast.IsNot: ast.Is, ast.NotEq: ast.Eq,
+                   ast.NotIn: ast.In}[type(t.ops[0])]
+            n = ast.Compare(t.left, [pos()], t.comparators)
+            ast.copy_location(n, t)
+            t = n
+            flip = not flip
+            continue
+        break
+    return ("cond", t, (not value) if flip else value, st)
 
 
 class TooManyPaths(AnalysisError):
@@ -95,14 +119,14 @@ def enum_paths(stmts, unroll=1, limit=20000, collapse_sanitizers=True):
             if g is not None:
                 var, c, e, extra = g
                 return nxt(path + [("sanitize", var, c, e, extra or None, st)])
-            go(st.body, path + [("cond", st.test, True, st)], nxt, loopk)
-            go(st.orelse, path + [("cond", st.test, False, st)], nxt, loopk)
+            go(st.body, path + [_cond(st.test, True, st)], nxt, loopk)
+            go(st.orelse, path + [_cond(st.test, False, st)], nxt, loopk)
             return
         if isinstance(st, ast.Assign):
             v = st.value
             if isinstance(v, ast.IfExp):
                 for flag, val in ((True, v.body), (False, v.orelse)):
-                    p = path + [("cond", v.test, flag, st)]
+                    p = path + [_cond(v.test, flag, st)]
                     for t in st.targets:
                         p = p + [("assign", src(t), val, st)]
                     nxt(p)
@@ -144,7 +168,7 @@ def enum_paths(stmts, unroll=1, limit=20000, collapse_sanitizers=True):
                                ast.Call(func=ast.Name("<next>", ast.Load()),
                                         args=[st.iter], keywords=[]), st)]
                 else:
-                    p2 = p + [("cond", st.test, True, st)]
+                    p2 = p + [_cond(st.test, True, st)]
                 go(st.body, p2, lambda q: iterate(q, n + 1),
                    (lambda q: iterate(q, n + 1), nxt))
             return iterate(path, 0)
